@@ -100,6 +100,22 @@ deriving DecidableEq, Repr
 
 abbrev Kernel := Map KSet
 
+/-- Syntactic kind of a member string (what set type can hold it). -/
+def memberKind (m : String) : String :=
+  let cs := m.toList
+  if cs.contains ',' && cs.contains '/' then "hash:net,net"
+  else if cs.contains ',' then "hash:ip,port"
+  else if cs.contains '/' then "hash:net"
+  else if cs.contains '.' then "hash:ip"
+  else if !cs.isEmpty && cs.all Char.isDigit then "bitmap:port"
+  else "raw"
+
+def validTypes : List String := ["hash:ip", "hash:ip,port", "hash:net", "bitmap:port", "hash:net,net"]
+
+/-- Does the kernel accept member `m` in a set of type `t`?  (A real kernel rejects an element whose
+syntax does not fit the set type; sets of types Felix does not know accept anything here.) -/
+def memberFits (t m : String) : Bool := !(validTypes.contains t) || memberKind m == t
+
 /-- The kernel's reaction to one restore line; `none` = the line fails (and
 `ipset restore` aborts there, keeping everything done so far). -/
 def kstep (K : Kernel) : Line → Option Kernel
@@ -111,7 +127,9 @@ def kstep (K : Kernel) : Line → Option Kernel
   | .add name m =>
     match K.get name with
     | none => none
-    | some s => if m ∈ s.members then none else some (K.set name { s with members := s.members ++ [m] })
+    | some s =>
+      if m ∈ s.members || !memberFits s.type m then none
+      else some (K.set name { s with members := s.members ++ [m] })
   | .del name m =>
     match K.get name with
     | none => none
